@@ -32,9 +32,9 @@ ASSUMPTIONS = ["np.roll / reshape / unravel_index / ravel_multi_index / np.delet
                "extents >= 1 (extent 0 gives an empty lattice and is not exercised)",
                "brick/hexagonal lattices exist only with open boundaries (the constructor refuses pbc=True)"]
 RULE = ("one case = (lattice, operation) with operation in nsites/adjacency/all index->coord/coord->index over a box of "
-        "coordinates; exhaustive over 1-D extents 1..6, 2-D extents 1..5, 3-D extents 1..4 with all 2^d boundary flags, both "
-        "conventions, delete on/off, layered 1..3 layers; a case is non-trivial if the lattice was constructed; "
-        "distinct = distinct (lattice, operation, arguments)")
+        "coordinates; exhaustive over 1-D extents 1..6, 2-D extents 1..5, 3-D extents 1..4 (thorough: 1..10, 1..7, 1..5) with "
+        "all 2^d boundary flags, both conventions, delete on/off, layered 1..3 layers; a case is non-trivial if the lattice "
+        "was constructed; distinct = distinct (lattice, operation, arguments)")
 
 SQ3 = math.sqrt(3.0)
 _ctx = {}
@@ -536,14 +536,15 @@ def sym_matrix(n, rng, dens=0.4):
 
 def lattices(tier, rng):
     thorough = tier == "thorough"
+    e1, e2, e3 = (10, 7, 5) if thorough else (6, 5, 4)     # exhaustive extents 1..e per dimension
     # ---- integer / triangular / odd-face-centred: exhaustive small shapes, all boundary flags
-    for n in range(1, 7):
+    for n in range(1, e1 + 1):
         for p in flagsets(1):
             yield {"cls": "integer", "shape": [n], "pbc": p}
             yield {"cls": "triangular", "shape": [n], "pbc": p}
         yield {"cls": "integer", "shape": [n], "pbc": True}
-    for a in range(1, 6):
-        for b in range(1, 6):
+    for a in range(1, e2 + 1):
+        for b in range(1, e2 + 1):
             for p in flagsets(2):
                 yield {"cls": "integer", "shape": [a, b], "pbc": p}
                 yield {"cls": "triangular", "shape": [a, b], "pbc": p}
@@ -554,9 +555,9 @@ def lattices(tier, rng):
                 for dele in (False, True):
                     yield {"cls": "brick", "shape": [a, b], "pbc": False, "delete": dele, "conv": conv}
                 yield {"cls": "hex", "shape": [a, b], "pbc": False, "conv": conv}
-    for a in range(1, 5):
-        for b in range(1, 5):
-            for c in range(1, 5):
+    for a in range(1, e3 + 1):
+        for b in range(1, e3 + 1):
+            for c in range(1, e3 + 1):
                 for p in flagsets(3):
                     yield {"cls": "integer", "shape": [a, b, c], "pbc": p}
     yield {"cls": "integer", "shape": [], "pbc": []}
@@ -612,8 +613,8 @@ def lattices(tier, rng):
     yield {"cls": "triangular", "shape": [2, 2], "pbc": [True, False, True]}
     yield {"cls": "ofc", "shape": [2, 2], "pbc": [True]}
     # ---- random larger shapes
-    nrand = 150 if thorough else 12
-    hi = 9
+    nrand = 300 if thorough else 12
+    hi = 12 if thorough else 9
     for _ in range(nrand):
         a, b = rng.randint(1, hi), rng.randint(1, hi)
         p = [rng.random() < 0.5, rng.random() < 0.5]
@@ -646,9 +647,10 @@ def setup():
 
 def run(rep, tier, rng, drv):
     setup()
-    rep.cov["exhaustive"] = ("1-D extents 1..6, 2-D extents 1..5 (integer, triangular, odd-face-centred: all 4 flag pairs; "
-                             "brick: both conventions x delete on/off; hexagonal: both conventions), 3-D integer extents 1..4 "
-                             "with all 8 flag triples; layered 1..3 layers over 20 base lattices")
+    ext = "1-D extents 1..10, 2-D extents 1..7, 3-D integer extents 1..5" if tier == "thorough" else \
+          "1-D extents 1..6, 2-D extents 1..5, 3-D integer extents 1..4"
+    rep.cov["exhaustive"] = (ext + " (2-D: integer, triangular, odd-face-centred with all 4 flag pairs; brick: both conventions x "
+                             "delete on/off; hexagonal: both conventions; 3-D: all 8 flag triples); layered 1..3 layers over 20 base lattices")
 
     def counted(cases):
         for c in cases:
